@@ -6,6 +6,7 @@ import (
 	"log"
 	"os"
 	"path/filepath"
+	"sort"
 	"strings"
 	"time"
 
@@ -109,7 +110,15 @@ func (b *Bundle) AddGlobalsFile(filename string) *Bundle {
 }
 
 func (b *Bundle) AddGlobalsMap(globals data.Map) *Bundle {
-	for k, v := range globals {
+	// in key order, so that the error reported for a map that redefines several
+	// globals does not depend on Go's random map iteration order.
+	var keys = make([]string, 0, len(globals))
+	for k := range globals {
+		keys = append(keys, k)
+	}
+	sort.Strings(keys)
+	for _, k := range keys {
+		var v = globals[k]
 		if existing, ok := b.globals[k]; ok {
 			b.err = fmt.Errorf("global %q already defined as %q", k, existing)
 			return b
